@@ -38,29 +38,18 @@ SITE = {1: '_recordRead', 11: '_recordReadVec<String>(locators)', 12: '_recordRe
         21: 'DbGrid::_deserialize', 22: 'DbGrid::_deserialize', 23: 'DbGrid::_deserialize:Rotation', 31: 'Table::_deserialize', 32: 'Table::_deserialize',
         41: 'PolyLine2D::_deserialize', 42: '_recordReadVec<double>', 43: 'Polygons::_deserialize', 44: 'Faults::_deserialize'}
 def model_key(o):
-    """canonical key of a bad outcome predicted by the as-is model"""
+    """canonical key of a bad outcome predicted by the model of the code as it is now"""
     code = o[0]
-    if code == 3:
-        s = o[1]
-        if s == 14: return '_recordReadVecInPlace:store-past-end'
-        if s == 17: return 'Db::_loadData:read-past-end'
-        if s in (11, 12, 42): return '_recordReadVec:store-past-end'
-        return SITE.get(s, 'site%d' % s) + ':store-out-of-bounds'
-    if code == 2:
-        k, s = o[1], o[2]
-        fn = SITE.get(s, 'site%d' % s)
-        if s in (11, 12, 13, 15): fn = 'Db::_deserialize'
-        if s in (41, 42): fn = 'PolyLine2D::_deserialize'
-        if s in (21, 22, 23): fn = 'DbGrid::_deserialize'
-        if s == 16: return 'Db::_deserialize:locator-rank-used-as-size'
-        return fn + (':alloc-from-file-counts' if k == 1 else ':negative-count')
-    if code == 4:
-        s = o[1]
-        fn = SITE.get(s, 'site%d' % s)
-        if s == 14: fn = 'Db::_deserialize'
-        if s == 42: fn = 'PolyLine2D::_deserialize'
-        return fn + ':count-loop-without-input'
+    fn = SITE.get(o[-1], 'site%d' % o[-1])
+    if code == 2 and o[2] == 16: return 'Db::_deserialize:locator-rank-used-as-size'
+    if code == 3: return fn + ':store-out-of-bounds'
+    if code == 2: return fn + ':count-from-file-unchecked'
+    if code == 4: return fn + ':count-loop-without-input'
     return None
+
+# classes whose failure comes from a reader they share: one key per root cause
+FAMILY_COUNT = {7: 'ANeigh', 8: 'ANeigh', 9: 'ANeigh', 15: 'ANeigh', 16: 'ANeigh', 18: 'AnamDiscrete', 19: 'AnamDiscrete'}
+FAMILY_SAVE = {11: 'PolyLine2D', 14: 'PolyLine2D', 21: 'PolyLine2D'}
 
 # ----------------------------------------------------------------------------- children
 def run_children(ctx, exe, tmpdir, cases, batch=48, workers=None):
@@ -189,14 +178,14 @@ def short_m(om):
 def replay_of(cls, data, oi, om=None, note=''):
     r = {'class': CLS[cls], 'entry_point': entry(cls), 'file_b64': base64.b64encode(data).decode(), 'file_text': data.decode('latin1')[:2000],
          'file_length': len(data), 'impl': short(oi), 'how': 'write file_b64 to a file and call the entry point on it (harness/C09.cpp, case "(1 %d (bytes...))") under AddressSanitizer' % cls}
-    if om is not None: r['model [as-is |f|+1 fuel, as-is large fuel, with fixes]'] = [short_m(x) for x in om]
+    if om is not None: r['model [code as it is now, fuel |f|+1; same, large fuel; with fixes/C09_5]'] = [short_m(x) for x in om]
     if note: r['note'] = note
     return r
 
 # ----------------------------------------------------------------------------- generators
 INT_SUBST = [b'0', b'-1', b'-5', b'99999999999', b'2147483647', b'65536', b'NA', b'abc', b'1e', b'-', b'7x', b'3.5', b'+', b'#']
 FLT_SUBST = [b'NA', b'abc', b'1e999', b'-', b'1.2.3', b'nan', b'-1e-999', b'.', b'1e+', b'0x10', b'1,5']
-LOC_SUBST = [b'x3', b'x0', b'x-1', b'z2000000000', b'sel2', b'code5', b'X1', b'zz', b'NA', b'f99', b'x4294967297', b'rklow2']
+LOC_SUBST = [b'x3', b'z2000000000', b'sel2', b'NA', b'x0', b'X1', b'x-1', b'code5', b'zz', b'f99', b'x4294967297', b'rklow2']
 
 def prefixes(rng, data, quick, modelled=True):
     n = len(data)
@@ -265,7 +254,7 @@ def corruptions(rng, cls, data, quick):
         if m:
             ws = [(m.start(1) + w.start(), m.start(1) + w.end()) for w in re.finditer(rb'\S+', m.group(1))]
             for a, b in ws[:3]:
-                for w in (LOC_SUBST if not quick else rng.sample(LOC_SUBST, 6)):
+                for w in (LOC_SUBST if not quick else LOC_SUBST[:6] + [b'x4294967297']):
                     out.append(('locator:' + w.decode(), sub(a, b, w)))
             m2 = re.search(rb'# Names\n([^\n]*)\n', data)
             if m2 and len(m2.group(1).split()) >= 2:
@@ -461,9 +450,7 @@ def check(ctx, quick, rng, runner, exe, tmpdir, proofs_ok):
                 elif o1[0] >= 2:
                     stats['predicted_defect'] += 1; found_input = True
                     key = model_key(o2 if (o1[0] == 4 and o2[0] in (2, 3)) else o1)
-                    if o1[0] == 4 and o2[0] in (0, 1) and oi['kind'] in ('ok', 'fail'):
-                        key = CLS[cls] + '::_deserialize:alloc-from-file-counts'    # the loop ends; what is observed is the allocation
-                    report(key, '%s on a %s file (%s): the reader model (as the code is) predicts %s and the implementation shows it: %s' % (
+                    report(key, '%s on a %s file (%s): the reader model (the code as it is now) predicts %s and the implementation shows it: %s' % (
                         name, CLS[cls], lab, {2: 'an escaping exception / assertion', 3: 'an out-of-bounds store', 4: 'a count-driven loop that no longer consumes input'}[o1[0]],
                         generic_bad or short(oi)), replay_of(cls, data, oi, model[i]), len(data))
                 elif o1[0] == 1 and not o1[3]:
@@ -472,26 +459,27 @@ def check(ctx, quick, rng, runner, exe, tmpdir, proofs_ok):
                            replay_of(cls, data, oi, model[i]), len(data))
                 elif generic_bad:
                     found_input = True
-                    report('%s:alloc-from-file-counts' % (CLS[cls] + '::_deserialize'), '%s: %s' % (name, generic_bad), replay_of(cls, data, oi, model[i]), len(data))
+                    report(CLS[cls] + '::_deserialize:count-from-file-unchecked', '%s: %s' % (name, generic_bad), replay_of(cls, data, oi, model[i]), len(data))
                 else:
                     stats['agree'] += 1
                     if oi['kind'] == 'ok': check_flags(cls, lab, data, oi, report, name)
             elif matches(cls, oi, o3) and not generic_bad:
+                # the implementation already behaves as the model with the proposed fixes/C09_5
                 stats['agree_fixed_model'] += 1
                 if oi['kind'] == 'ok': check_flags(cls, lab, data, oi, report, name)
             else:
-                # neither the as-is model nor the model with the fixes: decide on the property itself
+                # neither the model of the code as it is nor the model with the proposed fix: decide on the property itself
                 if generic_bad:
                     found_input = True
-                    report('unpredicted:%s:%s%s' % (name, oi.get('what', oi['kind']), (':' + oi['where']) if oi.get('where') else ''),
+                    report('unpredicted:' + generic_key(cls, oi),
                            '%s on a %s file (%s): %s — the reader model predicts %s' % (name, CLS[cls], lab, generic_bad, short_m(o2)), replay_of(cls, data, oi, model[i]), len(data))
                 elif oi['kind'] == 'ok' and impl_illformed(cls, oi['dump']):
                     found_input = True
-                    report(illformed_key(cls, oi['dump']), '%s returns an object that violates the class invariant (%s) for a %s file (%s); the reader model predicts %s' % (
+                    report('unpredicted:' + illformed_key(cls, oi['dump']), '%s returns an object that violates the class invariant (%s) for a %s file (%s); the reader model predicts %s' % (
                         name, illformed_why(cls, oi['dump']), CLS[cls], lab, short_m(o2)), replay_of(cls, data, oi, model[i]), len(data))
                 elif oi['kind'] == 'ok' and (min(oi['flags'][:2] + oi['flags'][3:]) < 1):
                     found_input = True
-                    report('unpredicted:%s:object-not-reusable' % name, '%s returns an object that cannot be printed/saved/reloaded identically %s; the model predicts %s' % (name, oi['flags'], short_m(o2)),
+                    report('unpredicted:%s:returned-object-not-reusable' % name, '%s returns an object that cannot be printed/saved/reloaded %s; the model predicts %s' % (name, oi['flags'], short_m(o2)),
                            replay_of(cls, data, oi, model[i]), len(data))
                 else:
                     report('model-drift:%s' % name, 'model and implementation disagree on a %s file (%s) but the implementation shows no failure of the property on it: impl %s, model %s' % (
@@ -519,29 +507,27 @@ def check(ctx, quick, rng, runner, exe, tmpdir, proofs_ok):
     if not proofs_ok: proof_break_violation(ctx, found_input)
     ctx.assumptions = ['files shorter than 2^31 bytes', 'device errors (badbit) do not occur while reading',
                        'memory safety of code downstream of the readers (std::string, Eigen, destructors) is runtime evidence only (ASan on the explored files)',
-                       'theorems C09_*_fixed are about the readers WITH the candidate fixes fixes/C09_*.patch; for the code as it is the corresponding statements are refuted (C09_*_refuted)']
+                       'C09_no_oob, C09_total, C09_alloc_bounded (5 loaders), C09_no_exception_partial speak about the code as it is now (cfg_now = fixes C09_1, C09_2, C09_3 second hunk, C09_4 applied); C09_wellformed and C09_no_exception need the proposed fixes/C09_5 (cfg_fixed); for Db/DbGrid as they are now they are refuted (C09_*_refuted)']
     ctx.level = 'proof (reader logic) + runtime evidence (memory safety downstream)'
 
 def generic_key(cls, oi):
-    """key of a failure observed on a class that has no reader model: the shared reader primitive when the sanitizer stops there,
-    else the class reader and the kind of failure"""
-    name = entry(cls)
-    rd = (CLS[cls] + '::_deserialize') if cls < 30 else name
-    if oi['kind'] == 'crash':
-        w = oi.get('where', '')
-        if oi['what'] in ('heap-buffer-overflow', 'SEGV') and '_recordReadVecInPlace' in w: return '_recordReadVecInPlace:store-past-end'
-        if oi['what'] in ('heap-buffer-overflow', 'SEGV') and '_recordReadVec' in w: return '_recordReadVec:store-past-end'
-        return '%s:%s%s' % (rd, oi['what'], (':' + w) if w else '')
-    if oi['kind'] == 'throw':
-        return rd + {1: ':alloc-from-file-counts', 2: ':negative-count'}.get(oi['code'], ':exception-escapes')
-    if oi['kind'] == 'timeout': return rd + ':no-answer-in-5s'
-    return rd + ':alloc-from-file-counts'
+    """key of a failure observed on a loader that has no reader model (or that the model does not predict): the reader and one of
+    two root causes — a count of the file used unchecked (allocation, negative size, loop without input) or a crash / escaping
+    exception on a corrupted field"""
+    if cls >= 30: rd = entry(cls)
+    else: rd = CLS[cls] + '::_deserialize'
+    if oi['kind'] == 'crash' or (oi['kind'] == 'throw' and oi['code'] not in (1, 2)):
+        return rd + ':crash-on-corrupted-field'
+    if cls in FAMILY_COUNT: rd = FAMILY_COUNT[cls] + '::_deserialize'
+    return rd + ':count-from-file-unchecked'
 
 def check_flags(cls, lab, data, oi, report, name):
     resave, reload_, idem, usable = oi['flags']
-    if usable != 1: report('%s:object-not-printable' % name, '%s returns an object whose toString() throws, for a %s file (%s)' % (name, CLS[cls], lab), replay_of(cls, data, oi), len(data))
-    elif resave != 1: report('%s:object-not-savable' % name, '%s returns an object that cannot be saved again (dumpToNF: %d), for a %s file (%s)' % (name, resave, CLS[cls], lab), replay_of(cls, data, oi), len(data))
-    elif reload_ != 1: report('%s:saved-object-not-reloadable' % name, '%s returns an object whose saved file does not load, for a %s file (%s)' % (name, CLS[cls], lab), replay_of(cls, data, oi), len(data))
+    if usable == 1 and resave == 1 and reload_ == 1: return
+    who = (FAMILY_SAVE[cls] + '::createFromNF') if cls in FAMILY_SAVE else name
+    what = ('toString() throws' if usable != 1 else 'it cannot be saved again (dumpToNF fails)' if resave != 1 else 'the file it saves does not load')
+    report('%s:returned-object-not-reusable' % who, '%s returns an object that cannot be used and saved again: %s, for a %s file (%s)' % (name, what, CLS[cls], lab),
+           replay_of(cls, data, oi), len(data))
     # idem (the reloaded object saves to the same bytes) is the business of C08: reported in the evidence only
 
 def impl_illformed(cls, d):
@@ -555,7 +541,7 @@ def impl_illformed(cls, d):
         if cls == 1:
             ncol, nech, names, uid, locs, arr = d
             allu = [u for l in locs for u in l]
-            return (ncol < 0 or nech < 0 or len(names) != ncol or uid != list(range(ncol)) or len(arr) != ncol * nech or len(locs) != 29
+            return (ncol < 0 or nech < 0 or len(names) != ncol or len(set(map(tuple, names))) != len(names) or uid != list(range(ncol)) or len(arr) != ncol * nech or len(locs) != 29
                     or len(set(allu)) != len(allu) or any(u < 0 or u >= ncol for u in allu))
         if cls == 3:
             return d[0] < 0 or d[1] < 0 or len(d[2]) != d[0] * d[1]
@@ -579,10 +565,8 @@ def illformed_why(cls, d):
 def illformed_key(cls, d):
     if cls == 2:
         g, db = d
-        if db[1] != (0 if g[0] <= 0 else prod(g[1])):
-            return 'DbGrid::_deserialize:db-part-failure-ignored' if db[0] == 0 and db[1] == 0 else 'DbGrid::_deserialize:nech-differs-from-grid'
-        if any(v < 0 for v in g[1]): return 'DbGrid::_deserialize:negative-nx'
-        return illformed_key(1, db).replace('Db::', 'DbGrid::Db::')
+        if db[1] != (0 if g[0] <= 0 else prod(g[1])) or any(v < 0 for v in g[1]): return 'DbGrid::_deserialize:table-and-grid-disagree'
+        return illformed_key(1, db)
     if cls == 1:
         ncol, nech, names, uid, locs, arr = d
         if ncol < 0 or nech < 0: return 'Db::_deserialize:negative-count-accepted'
